@@ -39,7 +39,7 @@ type C14Case struct {
 var c14Profiles = []string{"foo", "foo.bar", "fooXbar", "foobar", "bar", "firefox", "foo//sub", "baz-qux"}
 var c14Filters = []string{"", "", "foo", "foo.bar", "bar", "fire", "foo//", "nomatch", "foo.b"}
 var c14NoiseNames = []string{"/etc/ld.so.cache", "/etc/ld.so.preload", "/usr/lib/libfoo.so.1", "/usr/lib64/libbar.so", "/usr/lib/locale/locale-archive",
-	"/usr/share/locale/fr/LC_MESSAGES/x.mo", "/usr/share/zoneinfo/UTC", "/dev/null", "/dev/zero", "/dev/full", "/dev/log", "/dev/random", "/dev/urandom"}
+	"/usr/share/locale/fr/LC_MESSAGES/x.mo", "/usr/share/zoneinfo/UTC", "/usr/share/locale/fr/LC_MESSAGES/a b.mo", "/usr/share/zoneinfo/Amérique/Montréal", "/dev/null", "/dev/zero", "/dev/full", "/dev/log", "/dev/random", "/dev/urandom"}
 var c14Names = []string{"/opt/a", "/etc/conf", "/srv/q/r-s", "/var/x", "/media/u/f", "/boot/k",
 	// next to the documented noise paths, but not on them
 	"/usr/lib/firefox/libxul.so", "/usr/lib64/gcc/x/liby.so.1", "/usr/libx/foo.so", "/etc/ssl/x.so", "/usr/share/local/x",
@@ -85,8 +85,13 @@ func (it C14Item) message(items []C14Item) string {
 		if len(it.Token)%2 == 0 { // some records carry keys outside the fixed print order
 			extra = ` error=-13 capability=21 capname="sys_admin" flags="rw"`
 		}
-		return fmt.Sprintf(`type=AVC msg=audit(17000%05d.100:%d): apparmor="%s" operation="open" profile="%s" name="%s" pid=%d comm="%s" requested_mask="r" denied_mask="r" fsuid=0 ouid=0%s`,
-			it.Stamp, it.Stamp, it.State, it.Profile, name, it.Pid, it.Token, extra)
+		// the kernel writes a name with a blank or a non-ASCII byte in hex, unquoted
+		nameField := `name="` + name + `"`
+		if kernelEnc(name) == "hex" {
+			nameField = "name=" + strings.ToUpper(fmt.Sprintf("%x", name))
+		}
+		return fmt.Sprintf(`type=AVC msg=audit(17000%05d.100:%d): apparmor="%s" operation="open" profile="%s" %s pid=%d comm="%s" requested_mask="r" denied_mask="r" fsuid=0 ouid=0%s`,
+			it.Stamp, it.Stamp, it.State, it.Profile, nameField, it.Pid, it.Token, extra)
 	case "status":
 		return fmt.Sprintf(`type=AVC msg=audit(17000%05d.100:%d): apparmor="STATUS" operation="profile_load" profile="unconfined" name="%s" pid=%d comm="apparmor_parser"`, it.Stamp, it.Stamp, it.Profile, it.Pid)
 	case "foreign":
